@@ -1,3 +1,5 @@
+CONSTANT PatLen2 = 5
+CONSTANT PathLen2 = 5
 CONSTANT PatLen = 3
 CONSTANT PathLen = 3
 CONSTANT Wide = FALSE
